@@ -19,11 +19,12 @@ pub fn vals() -> &'static Vals {
 }
 
 // ---- (1) flat token sequences
-pub const NTOK: usize = 14;
+pub const NTOK: usize = 15;
 #[derive(Clone, Copy, Debug, PartialEq)]
 pub enum Tok { Key, Name(u8), Pk(u8), Sk(u8), Comment, Blank, Junk }
-pub fn tok(i: usize) -> Tok { match i { 0 => Tok::Key, 1..=4 => Tok::Name(i as u8 - 1), 5..=8 => Tok::Pk(i as u8 - 5), 9..=10 => Tok::Sk(i as u8 - 9), 11 => Tok::Comment, 12 => Tok::Blank, _ => Tok::Junk } }
-fn name_val(k: u8) -> String { match k { 0 => "a".into(), 1 => "b".into(), 2 => vals().name129.clone(), _ => String::new() } }
+pub fn tok(i: usize) -> Tok { match i { 0 => Tok::Key, 1..=5 => Tok::Name(i as u8 - 1), 6..=9 => Tok::Pk(i as u8 - 6), 10..=11 => Tok::Sk(i as u8 - 10), 12 => Tok::Comment, 13 => Tok::Blank, _ => Tok::Junk } }
+fn name_val(k: u8) -> String { match k { 0 => "a".into(), 1 => "b".into(), 2 => vals().name129.clone(), 3 => String::new(), _ => "A".into() } }
+fn swapcase(s: &str) -> String { s.chars().map(|c| if c.is_ascii_lowercase() { c.to_ascii_uppercase() } else { c.to_ascii_lowercase() }).collect() }
 fn pk_val(k: u8) -> String { match k { 0 => vals().pk[0].clone(), 1 => vals().pk[1].clone(), 2 => vals().pk35.clone(), _ => "junk".into() } }
 fn sk_val(k: u8) -> String { match k { 0 => vals().sk[0].clone(), _ => "junk".into() } }
 /// Whitespace only in structural positions (indentation, around '='), never inside values.
@@ -89,7 +90,12 @@ pub fn judge(text: &str, secs: &[Section]) -> Result<(bool, bool), String> {
                 let epk = EncodedPk::try_from(s.pks[0].as_str()).map_err(|e| e.to_string())?;
                 ensure!(kr.get_name_from_key(&epk).as_deref() == Some(s.names[0].as_str()), "lookup by public key returns {:?}, section name is {:?}", kr.get_name_from_key(&epk), s.names[0]);
             }
-            for probe in ["a", "b", "zz"] { if !secs.iter().any(|s| s.names[0] == probe) { ensure!(kr.get_key(probe).is_none(), "accepted keyring has an entry {:?} that no section defines", probe); } }
+            // lookups are exact: a name or key that differs only in letter case is another name / another key
+            for s in secs {
+                let sw = swapcase(&s.names[0]); if sw != s.names[0] && !secs.iter().any(|t| t.names[0] == sw) { ensure!(kr.get_key(&sw).is_none(), "lookup of {:?} answers with the entry {:?}", sw, s.names[0]); }
+                let sp = swapcase(&s.pks[0]); if sp != s.pks[0] && !secs.iter().any(|t| t.pks[0] == sp) { if let Ok(e) = EncodedPk::try_from(sp.as_str()) { ensure!(kr.get_name_from_key(&e).is_none(), "lookup by a public key that differs in letter case answers {:?}", kr.get_name_from_key(&e)); } }
+            }
+            for probe in ["a", "b", "A", "zz"] { if !secs.iter().any(|s| s.names[0] == probe) { ensure!(kr.get_key(probe).is_none(), "accepted keyring has an entry {:?} that no section defines", probe); } }
             for p in &vals().pk { if !secs.iter().any(|s| &s.pks[0] == p) { ensure!(kr.get_name_from_key(&EncodedPk::try_from(p.as_str()).unwrap()).is_none(), "accepted keyring maps a public key that no section defines"); } }
             Ok((true, true))
         }
@@ -117,11 +123,11 @@ pub fn seq_from_index(mut i: usize) -> SeqCase {
 pub fn seq_space(maxlen: u32) -> usize { (0..=maxlen).map(|l| NTOK.pow(l)).sum::<usize>() * 4 }
 
 // ---- (1b) sequences of sections
-pub const NSHAPE: usize = 12;
+pub const NSHAPE: usize = 13;
 fn shape(i: usize) -> Vec<Tok> {
     match i { 0 => vec![Tok::Key, Tok::Name(0), Tok::Pk(0)], 1 => vec![Tok::Key, Tok::Name(0), Tok::Pk(1)], 2 => vec![Tok::Key, Tok::Name(1), Tok::Pk(0)], 3 => vec![Tok::Key, Tok::Name(1), Tok::Pk(1)],
         4 => vec![Tok::Key, Tok::Name(1), Tok::Pk(1), Tok::Sk(0)], 5 => vec![Tok::Key, Tok::Sk(0), Tok::Pk(0), Tok::Comment, Tok::Name(0)], 6 => vec![Tok::Key, Tok::Pk(0)], 7 => vec![Tok::Key, Tok::Name(0)],
-        8 => vec![Tok::Key, Tok::Name(0), Tok::Name(1), Tok::Pk(0)], 9 => vec![Tok::Key, Tok::Name(0), Tok::Pk(0), Tok::Pk(1)], 10 => vec![Tok::Key, Tok::Name(0), Tok::Pk(0), Tok::Sk(1)], _ => vec![Tok::Key] }
+        8 => vec![Tok::Key, Tok::Name(0), Tok::Name(1), Tok::Pk(0)], 9 => vec![Tok::Key, Tok::Name(0), Tok::Pk(0), Tok::Pk(1)], 10 => vec![Tok::Key, Tok::Name(0), Tok::Pk(0), Tok::Sk(1)], 11 => vec![Tok::Key, Tok::Name(4), Tok::Pk(1)], _ => vec![Tok::Key] }
 }
 #[derive(Clone, Debug, Serialize, Deserialize)]
 pub struct SecCase { pub shapes: Vec<usize>, pub variant: u8 }
@@ -162,6 +168,7 @@ pub fn check_written(c: &Written) -> CheckResult {
         let k = kr.get_key(n).ok_or_else(|| format!("name {:?} was written but is not found after parsing", n))?;
         ensure!(&k.name == n && k.public_key.as_str() == epk && k.private_key.as_ref().map(|s| s.as_str()) == Some(esk.as_str()), "entry {:?} reads back with different fields", n);
         ensure!(kr.get_name_from_key(&EncodedPk::try_from(epk.as_str()).unwrap()).as_deref() == Some(n.as_str()), "public key of {:?} maps to {:?} after parsing", n, kr.get_name_from_key(&EncodedPk::try_from(epk.as_str()).unwrap()));
+        let sw = swapcase(n); if &sw != n && !written.iter().any(|w| w.0 == sw) { ensure!(kr.get_key(&sw).is_none(), "lookup of {:?} answers with the entry written as {:?}", sw, n); }
         let dec = Keyring::decode_public_key(&k.public_key).map_err(|e| format!("written public key does not decode: {}", e))?;
         ensure!(dec.as_bytes() == pk, "decoded public key differs from the key written");
     }
@@ -206,12 +213,12 @@ pub fn check_text(c: &TextCase) -> CheckResult {
 }
 
 pub fn run(ctx: &Ctx) {
-    set_rule("C17", "(1) every sequence of length <= L over 14 line tokens ([Key]; Name = a|b|129 bytes|empty; PublicKey = pk1|pk2|35-byte|junk; PrivateKey = sk|junk; comment; blank; junk) in 4 spacing/tab/CRLF renderings - the generator is the structure, so the sectioning is known by construction; (1b) every sequence of <= M sections over 12 section shapes; (2) keyrings in the shape the tool writes, with names from the domain key generation accepts (any Unicode without line breaks, trimmed, filtered by the tool's own validity test); (3) random texts; (4) 36-byte blobs with good/bad checksum, other lengths, every single-character replacement class. Oracle: accepted => structure valid per the statement and lookups by name / key return exactly the sections; tool-written keyrings read back; decode_public_key Ok <=> strict base64 of 32 bytes + SHA-256[..4]. Non-trivial = text with >= 1 [Key] line and >= 1 field line (public-key cases: all); distinct by enumeration index / hash of the case");
+    set_rule("C17", "(1) every sequence of length <= L over 15 line tokens ([Key]; Name = a|b|A|129 bytes|empty; PublicKey = pk1|pk2|35-byte|junk; PrivateKey = sk|junk; comment; blank; junk) in 4 spacing/tab/CRLF renderings - the generator is the structure, so the sectioning is known by construction; (1b) every sequence of <= M sections over 12 section shapes; (2) keyrings in the shape the tool writes, with names from the domain key generation accepts (any Unicode without line breaks, trimmed, filtered by the tool's own validity test); (3) random texts; (4) 36-byte blobs with good/bad checksum, other lengths, every single-character replacement class. Oracle: accepted => structure valid per the statement and lookups by name / key return exactly the sections; tool-written keyrings read back; decode_public_key Ok <=> strict base64 of 32 bytes + SHA-256[..4]. Non-trivial = text with >= 1 [Key] line and >= 1 field line (public-key cases: all); distinct by enumeration index / hash of the case");
     ctx.assume("leniency for hand-written files (tabs inside values, extra junk) is not an obligation: a structure the model calls valid but the parser rejects is only counted");
     let l = if ctx.quick() { 5 } else { 6 };
-    ctx.sse("token_sequences", &format!("all sequences of <= {} tokens over 14 tokens x 4 renderings", l), seq_space(l), seq_from_index, check_seq);
+    ctx.sse("token_sequences", &format!("all sequences of <= {} tokens over 15 tokens x 4 renderings", l), seq_space(l), seq_from_index, check_seq);
     let m = if ctx.quick() { 4 } else { 5 };
-    ctx.sse("section_sequences", &format!("all sequences of <= {} sections over 12 shapes x 4 renderings", m), (0..=m).map(|k| NSHAPE.pow(k)).sum::<usize>() * 4, sec_from_index, check_sec);
+    ctx.sse("section_sequences", &format!("all sequences of <= {} sections over 13 shapes x 4 renderings", m), (0..=m).map(|k| NSHAPE.pow(k)).sum::<usize>() * 4, sec_from_index, check_sec);
     ctx.pbt("tool_written_keyrings", ctx.n(40_000, 1_500_000), || (proptest::collection::vec(name_strategy(), 1..6), any::<u64>(), any::<bool>()).prop_map(|(names, seed, leading_newline)| Written { names, seed, leading_newline }), check_written);
     // every code point below U+3100 at start, middle and end of a name
     ctx.sse("name_code_points", "every code point < U+3100 placed at the start, middle and end of a name", 0x3100 * 3, |i| { let ch = char::from_u32((i / 3) as u32).unwrap_or('x'); let n = match i % 3 { 0 => format!("{}ab", ch), 1 => format!("a{}b", ch), _ => format!("ab{}", ch) }; Written { names: vec![n, "other".into()], seed: 9, leading_newline: false } }, check_written);
